@@ -7,7 +7,7 @@ import flight, vlib
 
 def cases_for(ctx):
     ids = flight.parrots(ctx)
-    rep = [("Chrome-133", ["mtls", "alps", "cku"]), ("Firefox-120", ["hrr"]), ("Chrome-58", ["v12", "mtls"]),
+    rep = [("Chrome-133", ["mtls", "alps", "cku", "echkeys"]), ("Firefox-120", ["hrr"]), ("Chrome-58", ["v12", "mtls"]),
            ("Chrome-100_PSK", ["psk"]), ("iOS-14", []), ("Firefox-120", ["v12"])]
     if ctx.quick:
         rnd = random.Random(ctx.seed)
@@ -16,7 +16,7 @@ def cases_for(ctx):
     else:
         sel = list(rep)
         for i in ids:
-            for fl in ([], ["hrr"], ["v12", "mtls"], ["mtls", "alps", "cku"]):
+            for fl in ([], ["hrr"], ["v12", "mtls"], ["mtls", "alps", "cku", "echkeys"]):
                 if (i, fl) not in sel:
                     sel.append((i, fl))
             if "PSK" in i:
@@ -27,6 +27,13 @@ def cases_for(ctx):
     for p, f in sel:
         out.append({"name": "%s[%s]" % (p, "+".join(f)), "parrot": p, "flags": f, "from": 2 if (p in seen and "psk" not in f) else 1})
         seen.add(p)
+    # the server configuration dimension: ECH-enabled servers (one / two configs) receive the ClientHello again, mutated
+    # inside its encrypted_client_hello extension only (the rest of the hello was mutated in the parrot's first case)
+    ech = ["Firefox-120", "Chrome-120"] if ctx.quick else ids
+    for p in ech:
+        for fl in (["echkeys"], ["echkeys2"]):
+            if (p, fl) != ("Chrome-120", ["echkeys"]) or not ctx.quick:
+                out.append({"name": "%s[%s]" % (p, "+".join(fl)), "parrot": p, "flags": fl, "from": 1, "focus": 65037})
     # post-handshake phase with the roles swapped: client sequences x server->client transport x server Read/Write/Close
     for c in out:
         if c["flags"] == [] and (c["parrot"] == "iOS-14" or not ctx.quick):
@@ -51,6 +58,7 @@ def run(ctx):
         "a mutated ClientHello is the captured hello of the parrot (sent in place of the live one, because shuffling parrots change layout per connection); later client messages are mutated live with consistent transcripts",
         "raw records: content types {0,20,21,22,23,24,255} x body 0..20 bytes sent by the client in place of its Finished record after ChangeCipherSpec (TLS 1.2, one case per cipher suite class: AES-GCM, ChaCha20-Poly1305, AES-CBC, 3DES) and right after the completed handshake (TLS 1.2 and 1.3)",
         "post-handshake phase: after a TLS 1.3 handshake + ping/pong the client sends every sequence (bounded length) over {KeyUpdate requested / not requested, application data, a record that does not authenticate, raw garbage, close}, never reads again, the server's outgoing direction is ok / blocked until the deadline / failing, then the server calls Read (until an error), Write, Close (Close may take the library's 5 s close_notify allowance)",
+        "server configuration: plain servers and ECH-enabled servers (Config.EncryptedClientHelloKeys with one / two configs, ids 7 and 107); the ClientHello's encrypted_client_hello extension is mutated with registry-id values for kdf_id / aead_id, config_id equal and unequal to the server's, enc and payload resized to boundary lengths (0, 31, 32, 33, ...), so that the server's HPKE setup is reached",
         "uTLS never sends a client CompressedCertificate; that kind (and client EncryptedExtensions where not negotiated) reaches the server only through the insert operator, at every server state",
         "deadline verdicts: transport deadline %d ms, tolerance 1000 ms, watchdog 3 s later; allocation verdicts as in C33" % cov["deadline_ms"],
         "TLC, the Go toolchain and the hooks' faithful placement are trusted",
